@@ -269,6 +269,35 @@ func (i *Interp) concretize(t *smt.Term, site string) *smt.Term {
 	return cv
 }
 
+// concretizeOne fixes t to one feasible value (no fork over the others).
+func (i *Interp) concretizeOne(t *smt.Term, site string) *smt.Term {
+	if t.IsConst() {
+		return t
+	}
+	c := i.ctx
+	ex := i.ex
+	if ex.pos < len(ex.prefix) {
+		d := ex.prefix[ex.pos]
+		ex.pos++
+		if d.Kind != 'o' {
+			panic(fmt.Sprintf("decision kind mismatch at %s: have %c want o", site, d.Kind))
+		}
+		ex.taken = append(ex.taken, d)
+		cv := c.Const(t.Sort, d.Val)
+		i.addPC(c.Eq(t, cv))
+		return cv
+	}
+	m := i.ensureModel()
+	if m == nil {
+		i.abort(stInconclusive, "no model to pick a representative value at "+site)
+	}
+	v := t.Eval(m, map[*smt.Term]uint64{})
+	ex.taken = append(ex.taken, Decision{'o', v})
+	cv := c.Const(t.Sort, v)
+	ex.pc = append(ex.pc, c.Eq(t, cv))
+	return cv
+}
+
 // choiceN is a structural decision among k alternatives (no solver involved).
 func (i *Interp) choiceN(k int, site string) int {
 	if k <= 1 {
